@@ -210,7 +210,9 @@ def run(pid, tier):
                     if tier == "quick" and rng.random() < 0.5:
                         hints = hints[:1]
                     for h in hints:
-                        recs.append(run_search(f"s{k}", cands3, prof, w, fn, h))
+                        # auditable ballots beyond the CVRs (informal ballots count in the total)
+                        tot = len(prof) + (0 if k % 3 else rng.choice([1, len(prof) // 2 + 1]))
+                        recs.append(run_search(f"s{k}", cands3, prof, w, fn, h, total=tot))
                         k += 1
     else:   # C14: re-application of every returned assertion
         for prof in profiles:
@@ -220,15 +222,18 @@ def run(pid, tier):
             recs.append(run_search(f"s{k}", cands3, prof, w, rng.choice(["cp", "bp"]), None))
             k += 1
     # beyond the exhaustive bound: 4 and 5 candidates, larger profiles (the specification still decides each case)
-    nbig = (250 if tier == "quick" else 4000)
+    nbig = ({"C04": 500, "C15": 1500, "C14": 150}[pid] if tier == "quick" else 8000)
+    ranks_by = {}
     for j in range(nbig):
-        nc = rng.choice([4, 4, 5]) if j % 3 else 3
+        nc = rng.choice([4, 4, 4, 5]) if j % 5 else 3
         cands = ["A", "B", "C", "D", "E"][:nc]
-        ranks = all_rankings(cands)
-        prof = [rng.choice(ranks) for _ in range(rng.randint(3, 9 if nc < 5 else 7))]
+        ranks = ranks_by.setdefault(nc, all_rankings(cands))
+        prof = [rng.choice(ranks) for _ in range(rng.randint(3, 9 if nc < 5 else 6))]
+        # most cases: the true winner is reported (an audit is possible), with an elimination-order hint
         w = rng.choice(cands)
-        hint = rng.choice([None, rng.sample(cands, nc)])
-        recs.append(run_search(f"b{j}", cands, prof, w, rng.choice(["cp", "bp"]), hint))
+        hint = None if j % 4 == 0 else rng.sample(cands, nc)
+        tot = len(prof) + (0 if j % 3 else rng.choice([1, 2, len(prof) // 2 + 1]))
+        recs.append(run_search(f"b{j}", cands, prof, w, rng.choice(["cp", "bp"]), hint, total=tot))
     if pid == "C14":
         # candidate identifiers that are substrings of one another, as in real exports ("4" and "47")
         recs += vote_records(["4", "47", "5", "3"] if tier == "thorough" else ["1", "12", "2"])
